@@ -129,6 +129,8 @@ func c05Build(side string, tag byte, chunks []int, end string, faults []c05Fault
 			conn.CloseErr = mk("close", kit.SysErr("close", syscall.EIO))
 		case "close-slow":
 			conn.CloseDelay = 15 * time.Millisecond
+		case "close-slow-long": // a close that lingers for seconds (SO_LINGER on unacknowledged data is 10 s); Pos = milliseconds
+			conn.CloseDelay = time.Duration(f.Pos) * time.Millisecond
 		case "dl-err":
 			conn.DeadlineErr[f.Pos] = mk("set", kit.SysErr("setsockopt", syscall.EINVAL))
 		}
@@ -396,6 +398,14 @@ func TestVerifC05HalfPipe(t *testing.T) {
 		}
 	}
 	rec.Exhaustive(fmt.Sprintf("every single fault (%d kinds×positions×sides) × 4 chunking pairs × 2 covert endings", len(u)))
+	// closes that linger for seconds: whatever bounded wait the relay may use internally, nothing may be left behind
+	// (dedicated cases, they cost real time: kept out of the pair universe)
+	for _, ms := range []int{2500, 6000, 11000}[:kit.Tier(1, 3)] {
+		for _, side := range []string{"client", "covert"} {
+			c05RunHalfPipes(rec, c05Case{ClientChunks: chunkings[3], CovertChunks: chunkings[2], CovertEnd: "eof", Faults: []c05Fault{{side, "close-slow-long", ms}}})
+		}
+	}
+	c05RunHalfPipes(rec, c05Case{ClientChunks: chunkings[2], CovertChunks: chunkings[3], CovertEnd: "stall", Faults: []c05Fault{{"client", "close-slow-long", 2500}, {"covert", "close-slow-long", 2500}}})
 	// pairs
 	nPairs := kit.Tier(3000, 100000)
 	if nPairs >= len(u)*len(u) {
